@@ -829,9 +829,13 @@ def check_pair(ctx):
             bad = p
         if p.outcome.kind == 'return':
             rv = tl.expand(p.outcome.expr)
-            if applied and not is_const(rv, True):
+            # the reported value as the conditions of this path decide it
+            tv = True if is_const(rv, True) else (
+                bool(rv.value) if is_const(rv) else
+                tl.truth(p, p.outcome.expr))
+            if applied and tv is not True:
                 bad = p
-            if not applied and is_const(rv) and rv.value:
+            if not applied and tv is True:
                 bad = p
     ctx.ob('C10.PAIR', bad is None, ctx.where(ld.module, ld.node), ld.qual,
            'loader result',
